@@ -12,6 +12,7 @@ from .lie_common import lib_call
 mp = O.mp
 PI = np.pi
 SHARDS = {"quick": 16, "thorough": 16}
+REQUIRED_REACH = ['SE23LieGroup.exp_mixed', 'SE23LieGroup.calculate_N', 'derive_strapdown_ins_propagation']
 RULE = ("random initial states (position/velocity log-uniform up to 1e3, any attitude, both quaternion signs), specific force up to "
         "100, |w| in {0, 1e-9..50 rad/s} incl. both sides of the coefficient switches (bisected), g in [0,20], dt in [0, 2] s incl. 0; "
         "reference: closed-form solution of p'=v, v'=Ra-g e3, R'=R[w]x (series S1,S2 summed to 1e-60 in mpmath on a sub-sample, the "
